@@ -373,6 +373,7 @@ func driveSpec(args []string) error {
 	// made the collector thrash on the large fixture documents of the thorough tier: validations then took minutes and were
 	// taken for hangs - a false alarm of the machinery, corrected.)
 	debug.SetGCPercent(400)
+	debug.SetMemoryLimit(6 << 30) // measured: a shard of the thorough tier reached 20 GB without it; the live heap stays far below
 	crashedHow := map[string]string{}
 	for _, c := range strings.Split(*crashed, ",") {
 		if parts := strings.Split(c, ":"); len(parts) == 3 {
